@@ -173,3 +173,98 @@ pub fn run_crs(d: &[u8]) -> Vec<u64> {
     enc_clockref(&ClockRef::from_slice(d), &mut v);
     v
 }
+
+// ---- C14: PES header ----
+use mpeg2ts_reader::pes::{self, DsmTrickMode, FrequencyTruncationCoefficientSelection, PesContents, PesError, PesHeader, PesLength, PesParsedContents, PtsDts};
+
+pub fn enc_pes_err(e: &PesError, v: &mut Vec<u64>) {
+    match e {
+        PesError::FieldNotPresent => v.push(1),
+        PesError::PtsDtsFlagsInvalid => v.push(2),
+        PesError::NotEnoughData { requested, available } => { v.push(3); v.push(*requested as u64); v.push(*available as u64); }
+        PesError::MarkerBitNotSet => v.push(4),
+    }
+}
+fn enc_pr<T>(r: &Result<T, PesError>, v: &mut Vec<u64>, f: impl FnOnce(&T, &mut Vec<u64>)) {
+    match r { Ok(x) => { v.push(0); f(x, v); } Err(e) => { v.push(1); enc_pes_err(e, v); } }
+}
+fn freq(f: &FrequencyTruncationCoefficientSelection) -> u64 {
+    match f {
+        FrequencyTruncationCoefficientSelection::DCNonZero => 0,
+        FrequencyTruncationCoefficientSelection::FirstThreeNonZero => 1,
+        FrequencyTruncationCoefficientSelection::FirstSixNonZero => 2,
+        FrequencyTruncationCoefficientSelection::AllMaybeNonZero => 3,
+    }
+}
+fn enc_trick(t: &DsmTrickMode, v: &mut Vec<u64>) {
+    match t {
+        DsmTrickMode::FastForward { field_id, intra_slice_refresh, frequency_truncation } => { v.extend([0, *field_id as u64, b(*intra_slice_refresh), freq(frequency_truncation)]); }
+        DsmTrickMode::SlowMotion { rep_cntrl } => v.extend([1, *rep_cntrl as u64]),
+        DsmTrickMode::FreezeFrame { field_id, reserved } => v.extend([2, *field_id as u64, *reserved as u64]),
+        DsmTrickMode::FastReverse { field_id, intra_slice_refresh, frequency_truncation } => { v.extend([3, *field_id as u64, b(*intra_slice_refresh), freq(frequency_truncation)]); }
+        DsmTrickMode::SlowReverse { rep_cntrl } => v.extend([4, *rep_cntrl as u64]),
+        DsmTrickMode::Reserved { reserved } => v.extend([5, *reserved as u64]),
+    }
+}
+pub fn obs_ppc(p: &PesParsedContents<'_>, base: &[u8], v: &mut Vec<u64>) {
+    v.push(p.pes_priority() as u64);
+    v.push(b(p.data_alignment_indicator() == pes::DataAlignment::Aligned));
+    v.push(b(p.copyright() == pes::Copyright::Protected));
+    v.push(b(p.original_or_copy() == pes::OriginalOrCopy::Original));
+    enc_pr(&p.pts_dts(), v, |x, v| match x {
+        PtsDts::PtsOnly(t) => { v.push(1); enc_ts_result(t, v); }
+        PtsDts::Both { pts, dts } => { v.push(2); enc_ts_result(pts, v); enc_ts_result(dts, v); }
+        PtsDts::None => v.push(8),
+        PtsDts::Invalid => v.push(9),
+    });
+    enc_pr(&p.escr(), v, enc_clockref);
+    enc_pr(&p.es_rate(), v, |r, v| { v.push(r.bytes_per_second() as u64 / 50); v.push(r.bytes_per_second() as u64); });
+    enc_pr(&p.dsm_trick_mode(), v, enc_trick);
+    enc_pr(&p.additional_copy_info(), v, |x, v| v.push(*x as u64));
+    enc_pr(&p.previous_pes_packet_crc(), v, |x, v| v.push(*x as u64));
+    enc_pr(&p.pes_extension(), v, |_, _| {});
+    let pl = p.payload();
+    v.push(off_in(base, pl)); v.push(pl.len() as u64);
+    let _ = format!("{:?}", p);
+}
+/// StreamId is opaque (private field, no accessor): recover the numeric value from equality with the
+/// public constants and, for the numbered ranges, from the Debug rendering.
+pub fn sid_value(s: &pes::StreamId) -> u64 {
+    use pes::StreamId as S;
+    let named: [(S, u64); 20] = [(S::PROGRAM_STREAM_MAP, 0xbc), (S::PRIVATE_STREAM1, 0xbd), (S::PADDING_STREAM, 0xbe), (S::PRIVATE_STREAM2, 0xbf),
+        (S::ECM_STREAM, 0xf0), (S::EMM_STREAM, 0xf1), (S::DSM_CC, 0xf2), (S::ISO_13522_STREAM, 0xf3), (S::H222_1_TYPE_A, 0xf4), (S::H222_1_TYPE_B, 0xf5),
+        (S::H222_1_TYPE_C, 0xf6), (S::H222_1_TYPE_D, 0xf7), (S::H222_1_TYPE_E, 0xf8), (S::ANCILLARY_STREAM, 0xf9), (S::SL_PACKETIZED_STREAM, 0xfa),
+        (S::FLEX_MUX_STREAM, 0xfb), (S::METADATA_STREAM, 0xfc), (S::EXTENDED_STREAM_ID, 0xfd), (S::RESERVED_DATA_STREAM, 0xfe), (S::PROGRAM_STREAM_DIRECTORY, 0xff)];
+    for (c, n) in named.iter() { if c == s { return *n; } }
+    let d = format!("{:?}", s);
+    let num = |p: &str| d.strip_prefix(p).and_then(|r| r.strip_suffix(')')).and_then(|r| r.parse::<u64>().ok());
+    if let Some(k) = num("Audio(") { return 0xc0 + k; }
+    if let Some(k) = num("Video(") { return 0xe0 + k; }
+    if let Some(k) = num("Unknown(") { return k; }
+    1000
+}
+pub fn obs_pes_header(h: &PesHeader<'_>, base: &[u8], v: &mut Vec<u64>) {
+    v.push(sid_value(&h.stream_id()));
+    v.push(match h.pes_packet_length() { PesLength::Unbounded => 0, PesLength::Bounded(l) => l.get() as u64 });
+    match h.contents() {
+        PesContents::Payload(d) => { v.push(2); v.push(off_in(base, d)); v.push(d.len() as u64); }
+        PesContents::Parsed(None) => v.push(0),
+        PesContents::Parsed(Some(p)) => { v.push(1); obs_ppc(&p, base, v); }
+    }
+}
+pub fn run_pes(buf: &[u8]) -> Vec<u64> {
+    let mut v = vec![];
+    match PesHeader::from_bytes(buf) {
+        None => v.push(0),
+        Some(h) => { v.push(1); obs_pes_header(&h, buf, &mut v); }
+    }
+    v
+}
+pub fn run_ppc(buf: &[u8]) -> Vec<u64> {
+    let mut v = vec![];
+    match PesParsedContents::from_bytes(buf) {
+        None => v.push(0),
+        Some(p) => { v.push(1); obs_ppc(&p, buf, &mut v); }
+    }
+    v
+}
